@@ -263,4 +263,11 @@ REGISTRY = {
         'assumptions': ['partial: the atomicity granularity is one access to the deferred dict / singledispatch object (dict.get, dict.pop, register, dispatch are atomic under the GIL); '
                         'pre-emption inside such an operation, free-threaded builds and cpprint\'s global colour palette are not covered'],
     },
+    'C18': {
+        'theorems': ['PP.C18.merge_spec', 'PP.C18.explicit_none_is_a_value', 'PP.C18.set_changes_given', 'PP.C18.set_nothing',
+                     'PP.C18.after_sets', 'PP.C18.entry_points', 'PP.C18.signatures_agree', 'PP.C18.shipped_defaults'],
+        'modules': ['PP.Model.Config', 'PP.Generated', 'PP.Props.C18'],
+        'sections': [{'name': 'entry-points', 'run': simple_sec('sec_config', 'config_section')}],
+        'rule': 'set_default_config sequences x explicit/defaulted settings x six entry points',
+    },
 }
